@@ -291,8 +291,16 @@ def run_shard(tier: str, seed: int, shard):
                 acc.guard(case, check_set, acc, ctx, aset, r, xs)
                 if k in (1, 2) and r in (4, 16):
                     acc.guard(case, check_translation, acc, ctx, ctx2, aset, r, 1.0)
+    # memberships that are positive but within the library comparison tolerance (1e-3) of zero
+    tiny_atoms = [(t, d) for t in range(10) for d in (2.0**-12, 2.0**-11)]
+    for k in (1, 2):
+        for aset in itertools.product(tiny_atoms, repeat=k):
+            for r in (4, 16):
+                case = {"range": [ctx.a, ctx.b], "set": [list(s) for s in aset], "implication": impl, "aggregation": aggr, "resolution": r}
+                acc.guard(case, check_set, acc, ctx, aset, r, mids[r])
+                acc.cls("tiny_memberships")
     for pair in itertools.product(range(10), repeat=2):
-        for r in (5, 16):
+        for r in (1, 2, 3, 4, 5, 16):  # 4 = the number of rows of the batch (a square membership matrix)
             acc.guard({"range": [ctx.a, ctx.b], "set": list(pair), "resolution": r, "batch": True, "implication": impl,
                        "aggregation": aggr}, check_batch, acc, ctx, pair, r)
     for r in (4, 16):
